@@ -14,7 +14,7 @@ import (
 func init() {
 	register(stream{
 		name: "selector",
-		rule: "every selector made of ≤ K segments (K=2 quick, 3 thorough) from a 24-shape segment alphabet (field present/missing/empty-name, explicit field, index in/out of range/negative, open/closed/reversed/negative slices, iterator, identity; each optional or not) applied to each of 18 data values of every IPLD kind (maps, lists, valid/invalid UTF-8 strings, bytes, scalars, null); plus random longer selectors on random trees. Added later: a second parse of the same text is first applied to 12 values of other kinds and lengths and must then answer like the fresh one (a selector is not changed by being used); [==, selector, selected value] holds for the policy as built and as decoded; quoted field names containing ??; 48- and 50-byte strings of multi-byte characters. Non-trivial = the selector has ≥ 2 segments and resolution gets past the first segment or involves an optional segment. Distinct = distinct protocol lines.",
+		rule: "every selector made of ≤ K segments (K=2 quick, 3 thorough) from a 24-shape segment alphabet (field present/missing/empty-name, explicit field, index in/out of range/negative, open/closed/reversed/negative slices, iterator, identity; each optional or not) applied to each of 18 data values of every IPLD kind (maps, lists, valid/invalid UTF-8 strings, bytes, scalars, null); plus random longer selectors on random trees. Added later: a second parse of the same text is first applied to 12 values of other kinds and lengths and must then answer like the fresh one (a selector is not changed by being used); [==, selector, selected value] holds for the policy as built and as decoded; quoted field names containing ??; 48- and 50-byte strings of multi-byte characters. Quoted field names that begin or end with an escaped quote. Non-trivial = the selector has ≥ 2 segments and resolution gets past the first segment or involves an optional segment. Distinct = distinct protocol lines.",
 		run:  runSelectorStream,
 		eval: evalSelector,
 		cmp:  cmpImplSpec,
@@ -185,6 +185,7 @@ func evalSelector(line string) (string, string) {
 
 var selSegShapes = []string{
 	".a", ".a?", ".zz", ".zz?", `["a"]`, `[""]`, `[""]?`, `["b"]?`, `["a??"]`,
+	`["a\""]`, `["\"a"]`, `["\""]`, `["a\"b"]?`, // field names that begin or end with an (escaped) quote: kept as written between the outer quotes
 	"[0]", "[0]?", "[-1]", "[5]", "[5]?", "[-7]?",
 	"[1:]", "[:-1]", "[-2:5]", "[3:1]", "[:2]?", "[0:1]",
 	"[]", "[]?", ".", ".b",
@@ -193,6 +194,7 @@ var selSegShapes = []string{
 var selValues = []string{
 	"n", "T", "i7", "d3ff8000000000000", "s68c3a96c6c6f", "s", "s61ff62", "b010203", "b",
 	"l(i1,s78,l(i2,i3))", "l()", "m(61:m(61:i1,62:l(i1,i2)),:i9,62:l(i10,i20,i30))", "m()",
+	"m(615c22:i1,5c2261:i2,5c22:i3,61:i4,615c:i5,2261:i6,615c2262:i7)", // keys a\" \"a \" a a\ "a a\"b
 	"l(m(61:i1),m(61:i2,62:i3))", "m(7a7a:n,61:l())", "m(613f3f:i1,613f:i2,61:i3)", "m(61:s616263,62:b0a0b0c)", "l(n,n)", "m(61:n)",
 	"sff", "se282acc0af41", // invalid UTF-8 only; a valid 3-byte rune followed by an overlong form and a letter
 	"s" + strings.Repeat("c3a9", 24),                  // 24 two-byte characters: 48 bytes, byte length ≠ character count, beyond any small buffer
